@@ -76,7 +76,8 @@ func runC19(seed int64, tier string, outDir string) *result {
 	res := &result{Property: "C19", Seed: seed, Tier: tier, Stats: map[string]interface{}{}}
 
 	// ---- pool ----
-	ids := [][]byte{{0x02, 0x10}, {0x02, 0x10, 0x00}, {0x03, 0x01}, {0x02}}
+	// nothing ties a block's clock id to a key: the empty id and the absent id are ids too
+	ids := [][]byte{{0x02, 0x10}, {0x02, 0x10, 0x00}, {0x03, 0x01}, {0x02}, {}, nil}
 	timesIn := []int{0, 1, 2, 7, 1 << 40, math.MaxInt64}
 	timesOut := []int{-1, -5, math.MinInt64, math.MinInt64 + 1}
 	nh := 6
@@ -125,7 +126,22 @@ func runC19(seed int64, tier string, outDir string) *result {
 			coqN(rk.rank(string(k.e.GetClock().GetID()))), coqN(hk.rank(k.Hash)))
 	}
 
-	var poolIn, poolOut []skey
+	// the same keys on entries of an application-defined type whose clock is an application-defined
+	// type too (the codecs and LogOptions take prototypes of both): its Compare orders by time alone,
+	// which is all the ordering functions may rely on - they compare the ids themselves
+	mkc := func(t int, id []byte, h cid.Cid) skey {
+		e := &c19Entry{Entry: &entry.Entry{Hash: h, LogID: "x", Payload: []byte("p")}, clk: &c19TimeClock{id: id, t: t}}
+		return skey{Time: t, ID: fmt.Sprintf("%x", id), Hash: h.String(), e: e}
+	}
+	var poolIn, poolOut, poolCustom []skey
+	for _, t := range timesIn {
+		for _, id := range ids {
+			poolCustom = append(poolCustom, mkc(t, id, hashes[rng.Intn(nh)]))
+			if rng.Intn(2) == 0 {
+				poolCustom = append(poolCustom, mkc(t, id, hashes[rng.Intn(nh)]))
+			}
+		}
+	}
 	for _, t := range timesIn {
 		for _, id := range ids {
 			// two different hashes per (time,id) so that ties exist
@@ -152,9 +168,9 @@ func runC19(seed int64, tier string, outDir string) *result {
 	header := "From IpfsLog Require Import Model.Order Model.Check19.\nOpen Scope Z_scope.\n"
 	pairList := &caseList{name: "pair_cases", typ: "pair_case", checker: "mismatches_pairs"}
 	sortList := &caseList{name: "sort_cases", typ: "sort_case", checker: "mismatches_sorts"}
-	nPairs := 0
+	nPairs, nCustomPairs := 0, 0
 	distinctClass := map[string]struct{}{}
-	pairs := func(pool []skey, inRange bool) {
+	pairs := func(pool []skey, inRange bool, model bool) {
 		for _, a := range pool {
 			for _, b := range pool {
 				obs := make([]string, len(fns))
@@ -165,14 +181,21 @@ func runC19(seed int64, tier string, outDir string) *result {
 					vals[i], errs[i] = v, err
 					obs[i] = cresStr(v, err)
 				}
-				pairList.add(fmt.Sprintf("Build_pair_case %s %s %s", coqKey(a), coqKey(b), coqList(obs)),
-					fmt.Sprintf("pair a=(%d,%s,%s) b=(%d,%s,%s)", a.Time, a.ID, a.Hash, b.Time, b.ID, b.Hash))
-				nPairs++
+				if model {
+					pairList.add(fmt.Sprintf("Build_pair_case %s %s %s", coqKey(a), coqKey(b), coqList(obs)),
+						fmt.Sprintf("pair a=(%d,%s,%s) b=(%d,%s,%s)", a.Time, a.ID, a.Hash, b.Time, b.ID, b.Hash))
+					nPairs++
+				} else {
+					nCustomPairs++
+				}
 				cls := fmt.Sprintf("%d/%d/%d", sgn(a.Time-b.Time)*boolInt(inRange), sgn(strings.Compare(a.ID, b.ID)), sgn(strings.Compare(a.Hash, b.Hash)))
 				distinctClass[cls] = struct{}{}
 				keySuffix := ""
 				if !inRange {
 					keySuffix = ":negative-time"
+				}
+				if !model {
+					keySuffix = ":custom-clock-type"
 				}
 				// monitor: laws on this pair
 				lww, fww, hsh, cmp := vals[0], vals[1], vals[2], vals[3]
@@ -203,8 +226,38 @@ func runC19(seed int64, tier string, outDir string) *result {
 			}
 		}
 	}
-	pairs(poolIn, true)
-	pairs(append(append([]skey{}, poolOut...), poolIn[:6]...), false)
+	pairs(poolIn, true, true)
+	pairs(append(append([]skey{}, poolOut...), poolIn[:6]...), false, true)
+	pairs(poolCustom, true, false)
+	// sorting entries of the custom type with pairwise distinct (time, id): every ordering is total
+	// there, so the result cannot depend on the order of the input
+	for n := 0; n < 60; n++ {
+		used := map[string]bool{}
+		var in []iface.IPFSLogEntry
+		for _, k := range rng.Perm(len(poolCustom)) {
+			c := poolCustom[k]
+			if tk := fmt.Sprintf("%d/%s", c.Time, c.ID); !used[tk] && len(in) < 12 {
+				used[tk] = true
+				in = append(in, c.e)
+			}
+		}
+		fi := []int{0, 1, 2}[n%3]
+		a := append([]iface.IPFSLogEntry{}, in...)
+		b := make([]iface.IPFSLogEntry, len(in))
+		for i, j := range rng.Perm(len(in)) {
+			b[i] = in[j]
+		}
+		sorting.Sort(fns[fi].f, a, n%2 == 0)
+		sorting.Sort(fns[fi].f, b, n%2 == 0)
+		nCustomPairs++
+		for i := range a {
+			if a[i] != b[i] {
+				fail("sort-deterministic", "C19:sort-order-dependent:custom-clock-type", "sorting a permutation of entries with pairwise distinct (time, id) gave a different order",
+					map[string]interface{}{"fn": fns[fi].name, "n": len(in)})
+				break
+			}
+		}
+	}
 
 	// ---- triples (monitor only: transitivity) ----
 	nTriples := 0
@@ -330,7 +383,7 @@ func runC19(seed int64, tier string, outDir string) *result {
 	}
 	res.CaseFiles = writeShards(outDir, "C19", header, []*caseList{pairList, sortList}, 250)
 	res.ModelCases = nPairs + nSorts
-	res.Evaluations = nPairs + nTriples + nSorts
+	res.Evaluations = nPairs + nCustomPairs + nTriples + nSorts
 	res.Distinct = len(distinctClass)
 	res.Rule = "pairs: full square of a pool of sort keys over {times} x {ids} x 2 random hashes (in-range times) plus a pool with negative/extreme times; a pair class is (sign of time diff, sign of id diff, sign of hash diff), distinct_nontrivial counts the classes hit; triples: random; sorts: random lists of 0..20 pool elements (with ties) under all 8 comparator variants, both directions, plus lists of 21..60 distinct entries under the hash ordering"
 	cl := make([]string, 0, len(distinctClass))
@@ -339,11 +392,51 @@ func runC19(seed int64, tier string, outDir string) *result {
 	}
 	sort.Strings(cl)
 	res.Stats["pair_cases"] = nPairs
+	res.Stats["custom_clock_type_cases"] = nCustomPairs
 	res.Stats["triple_cases"] = nTriples
 	res.Stats["sort_cases_model"] = nSorts
 	res.Stats["pair_classes"] = cl
 	res.Samples = []interface{}{pairList.labels[0], pairList.labels[len(pairList.labels)/2], sortList.labels[len(sortList.labels)-1]}
 	return res
+}
+
+// c19Entry / c19TimeClock: an application-defined entry type with an application-defined clock
+type c19Entry struct {
+	*entry.Entry
+	clk iface.IPFSLogLamportClock
+}
+
+func (e *c19Entry) GetClock() iface.IPFSLogLamportClock { return e.clk }
+
+type c19TimeClock struct {
+	id []byte
+	t  int
+}
+
+func (c *c19TimeClock) New() iface.IPFSLogLamportClock { return &c19TimeClock{} }
+func (c *c19TimeClock) Defined() bool                  { return c != nil }
+func (c *c19TimeClock) GetID() []byte                  { return c.id }
+func (c *c19TimeClock) GetTime() int                   { return c.t }
+func (c *c19TimeClock) SetID(id []byte)                { c.id = id }
+func (c *c19TimeClock) SetTime(t int)                  { c.t = t }
+func (c *c19TimeClock) Tick() iface.IPFSLogLamportClock {
+	c.t++
+	return &c19TimeClock{id: c.id, t: c.t}
+}
+func (c *c19TimeClock) Merge(o iface.IPFSLogLamportClock) iface.IPFSLogLamportClock {
+	if o.GetTime() > c.t {
+		c.t = o.GetTime()
+	}
+	return &c19TimeClock{id: c.id, t: c.t}
+}
+func (c *c19TimeClock) Compare(o iface.IPFSLogLamportClock) int {
+	switch {
+	case c.t < o.GetTime():
+		return -1
+	case c.t > o.GetTime():
+		return 1
+	}
+	return 0
 }
 
 func boolInt(b bool) int {
